@@ -5,6 +5,7 @@
 package main
 
 import (
+	"encoding/json"
 	"flag"
 	"fmt"
 	"os"
@@ -22,7 +23,17 @@ func main() {
 	tier := flag.String("tier", "", "quick | thorough (default: $VERIF_TIER or quick)")
 	verif := flag.String("verif", "", "verif directory (default: parent of the binary's directory)")
 	dump := flag.String("dump", "", "debug: dump GEM model of the named generator function")
+	describe := flag.Bool("describe", false, "print the registered properties as JSON")
 	flag.Parse()
+	if *describe {
+		out := map[string]any{}
+		for id, pd := range props {
+			out[id] = map[string]any{"explanation": pd.Explanation, "assumptions": pd.Assumptions, "trusted": pd.Trusted, "technique": pd.Technique}
+		}
+		b, _ := json.MarshalIndent(out, "", " ")
+		fmt.Println(string(b))
+		return
+	}
 
 	if *tier == "" {
 		*tier = os.Getenv("VERIF_TIER")
@@ -45,6 +56,12 @@ func main() {
 	}
 	os.Unsetenv("GOWORK")
 
+	defer func() {
+		if r := recover(); r != nil {
+			fmt.Fprintln(os.Stderr, r)
+			os.Exit(2)
+		}
+	}()
 	if *dump != "" {
 		c := &Ctx{Repo: abs, VerifDir: *verif, Tier: *tier, Prop: "dump", Seed: seed}
 		g := c.gem()
